@@ -185,6 +185,7 @@ Del == /\ IsEv("del")
 (* C12: invalid arguments -> documented exception, nothing changes *)
 Bad == /\ IsEv("bad")
        /\ Fails(CASE E.what \in {"settype", "setval", "gettype", "remtype", "memtype"} -> {"ValueError", "TypeError"}
+                  [] E.what \in {"resizehuge", "resizemax"} -> {"OutOfMemoryError", "FormatError"}      \* (Tree: resizing to n > 0 is refused as such)
                   [] OTHER -> {"ValueError"})          \* (setrefuse: the value type's own Assign refuses the value)
 
 Next == \/ Reset \/ End \/ New \/ Set \/ RemOk \/ RemFail \/ GetOk \/ GetFail \/ Mem
